@@ -179,6 +179,9 @@ func (fx *FnCtx) externalErrorsK(callee *ssa.Function, key string, rt types.Type
 					continue
 				}
 				fx.sol.Assert(tNot(tEq(e, fmt.Sprint(id))))
+				// ... nor does it wrap one: errors.Is(externalError, moduleSentinel) is false (part of A13)
+				fx.errAxioms()
+				fx.sol.Assert("(not (errIs " + e + " " + fmt.Sprint(id) + "))")
 			}
 		}
 	}
